@@ -269,6 +269,7 @@ func main() {
 	nObl, nDis := 0, 0
 	nCover, nCoverBad := 0, 0
 	var coverBad []*Obligation
+	coverGroups := map[string]*coverGroup{}
 	maxSecs := 0.0
 	slowest := ""
 	for _, o := range allObls {
@@ -280,10 +281,14 @@ func main() {
 			maxSecs, slowest = o.Res.Seconds, o.Name
 		}
 		if o.Cover {
-			nCover++
-			if o.Res.Status == "unsat" {
-				nCoverBad++
-				coverBad = append(coverBad, o)
+			g := coverGroups[o.Name]
+			if g == nil {
+				g = &coverGroup{first: o}
+				coverGroups[o.Name] = g
+			}
+			g.total++
+			if o.Res.Status != "unsat" {
+				g.reach++
 			}
 			continue
 		}
@@ -301,6 +306,13 @@ func main() {
 			solverCount[o.Res.Solver]++
 		} else {
 			a.failed = append(a.failed, o)
+		}
+	}
+	for _, g := range coverGroups {
+		nCover++
+		if g.reach == 0 {
+			nCoverBad++
+			coverBad = append(coverBad, g.first)
 		}
 	}
 	violations := 0
@@ -341,7 +353,7 @@ func main() {
 		exit = 1
 	}
 	for _, o := range coverBad {
-		fmt.Printf("VACUOUS %s path=%s: %s is unsatisfiable\n", o.Name, o.Path, o.Text)
+		fmt.Printf("VACUOUS %s: %s on no path (contradictory precondition or invariant?)\n", o.Name, o.Text)
 	}
 	for _, e := range genErrors {
 		fmt.Printf("ERROR %s\n", e)
@@ -441,6 +453,11 @@ func main() {
 	_ = lastWorld
 	os.RemoveAll(workDir)
 	os.Exit(exit)
+}
+
+type coverGroup struct {
+	first        *Obligation
+	total, reach int
 }
 
 func qsize(po *PreparedObl) int {
